@@ -3,6 +3,7 @@ package rules
 import (
 	"encoding/binary"
 	"fmt"
+	"runtime"
 	"runtime/metrics"
 	"strconv"
 	"strings"
@@ -57,9 +58,29 @@ func (c C13Case) Describe() string {
 
 var allocSample = []metrics.Sample{{Name: "/gc/heap/allocs:bytes"}}
 
+// heapAllocs is the cheap, approximate allocation counter: the runtime flushes per-P statistics lazily,
+// so a delta between two reads can contain allocations made long before. It is only used to pick
+// candidates; exactAlloc decides.
 func heapAllocs() uint64 {
 	metrics.Read(allocSample)
 	return allocSample[0].Value.Uint64()
+}
+
+// exactAlloc re-runs f between two runtime.ReadMemStats calls (which stop the world and flush every
+// per-P cache, so TotalAlloc is exact) and returns the smallest of three measurements: allocations of
+// background goroutines can only add to a measurement, never lower it.
+func exactAlloc(f func()) uint64 {
+	best := ^uint64(0)
+	var a, b runtime.MemStats
+	for i := 0; i < 3; i++ {
+		runtime.ReadMemStats(&a)
+		f()
+		runtime.ReadMemStats(&b)
+		if d := b.TotalAlloc - a.TotalAlloc; d < best {
+			best = d
+		}
+	}
+	return best
 }
 
 func (c C13Case) rule() rule.Rule {
@@ -98,8 +119,10 @@ func c13Oracle(c C13Case) (passedFirstStage bool, err error) {
 		if (wf == nil) == (berr == nil) {
 			return false, fmt.Errorf("Build returned (data nil=%v, err=%v): exactly one must be nil", wf == nil, berr)
 		}
-		if d := after - before; d > 1<<20+64*uint64(inLen)+2080 {
-			return false, fmt.Errorf("Build allocated %d bytes for an input of %d bytes", d, inLen)
+		if limit := 1<<20 + 64*uint64(inLen) + 2080; after-before > limit {
+			if d := exactAlloc(func() { _, _ = rule.Build(r) }); d > limit {
+				return false, fmt.Errorf("Build allocated %d bytes for an input of %d bytes", d, inLen)
+			}
 		}
 		if berr == nil {
 			if w, derr := rulegen.Decode(wf); derr != nil {
@@ -119,8 +142,10 @@ func c13Oracle(c C13Case) (passedFirstStage bool, err error) {
 			if derr != nil && txt != "" {
 				return false, fmt.Errorf("ToCommandLine returned both text %q and error %v", txt, derr)
 			}
-			if d := after - before; d > 1<<20+64*uint64(inLen) {
-				return false, fmt.Errorf("ToCommandLine allocated %d bytes for an input of %d bytes", d, inLen)
+			if limit := 1<<20 + 64*uint64(inLen); after-before > limit {
+				if d := exactAlloc(func() { _, _ = rule.ToCommandLine(rule.WireFormat(c.Bytes), resolve) }); d > limit {
+					return false, fmt.Errorf("ToCommandLine allocated %d bytes for an input of %d bytes", d, inLen)
+				}
 			}
 			if derr == nil {
 				w, e := rulegen.Decode(c.Bytes)
@@ -141,8 +166,10 @@ func c13Oracle(c C13Case) (passedFirstStage bool, err error) {
 		if (r == nil) == (perr == nil) {
 			return false, fmt.Errorf("Parse returned (rule nil=%v, err=%v): exactly one must be nil", r == nil, perr)
 		}
-		if d := after - before; d > 1<<20+64*uint64(inLen) {
-			return false, fmt.Errorf("Parse allocated %d bytes for an input of %d bytes", d, inLen)
+		if limit := 1<<20 + 64*uint64(inLen); after-before > limit {
+			if d := exactAlloc(func() { _, _ = flags.Parse(string(c.Line)) }); d > limit {
+				return false, fmt.Errorf("Parse allocated %d bytes for an input of %d bytes", d, inLen)
+			}
 		}
 		if perr == nil {
 			// whatever Parse returns must be buildable or refused without a panic
